@@ -322,15 +322,35 @@ fn shapes(seg: usize, rng: &mut Rng, thorough: bool) -> Vec<Vec<(char, usize)>> 
     v
 }
 
+/// Every Database opened in this process leaves a few file descriptors behind (reader-pool threads keep their
+/// segment files); a long run needs more than the default limit.
+fn raise_nofile_limit() {
+    unsafe {
+        let mut lim = libc::rlimit { rlim_cur: 0, rlim_max: 0 };
+        if libc::getrlimit(libc::RLIMIT_NOFILE, &mut lim) != 0 { return; }
+        for want in [1_048_576u64, 524_288, 262_144, 131_072, 65_536] {
+            if want <= lim.rlim_cur { return; }
+            let l = libc::rlimit { rlim_cur: want, rlim_max: want.max(lim.rlim_max) };
+            if libc::setrlimit(libc::RLIMIT_NOFILE, &l) == 0 { return; }
+        }
+        let l = libc::rlimit { rlim_cur: lim.rlim_max, rlim_max: lim.rlim_max };
+        libc::setrlimit(libc::RLIMIT_NOFILE, &l);
+    }
+}
+
 fn main() {
     if std::env::var("SV_PANICS").is_err() { common::silence_panics(); }
+    raise_nofile_limit();
+    if std::env::var("SV_TIMING").is_ok() { unsafe { let mut lim = libc::rlimit { rlim_cur: 0, rlim_max: 0 }; libc::getrlimit(libc::RLIMIT_NOFILE, &mut lim); eprintln!("RLIMIT_NOFILE {} {}", lim.rlim_cur, lim.rlim_max); } }
     let a = common::args();
     let mut out = common::Out::new();
     let rt = tokio::runtime::Builder::new_multi_thread().worker_threads(2).enable_all().build().unwrap();
     let mut scratch = Scratch::new();
     let mut runner = Runner { world: None, scratch: Scratch::new(), ver_t: 0, ncase: 0 };
     if a.tier == "cases" {
+        let deadline: Option<u64> = std::env::var("SV_DEADLINE").ok().and_then(|x| x.parse().ok());
         for line in std::fs::read_to_string(&a.rest[0]).unwrap().lines() {
+            if deadline.is_some_and(|d| now_secs() >= d) { break; }
             if let Some(c) = Case::parse(line) {
                 if !reachable(c.off, c.seg) { eprintln!("skipping unreachable offset: {line}"); continue; }
                 let (cs, obs) = rt.block_on(runner.run_case(c));
@@ -382,13 +402,21 @@ fn main() {
     for (_, v) in groups { for ch in v.chunks(24) { chunks.push(ch.to_vec()); } }
     for i in (1..chunks.len()).rev() { let j = rng.below(i as u64 + 1) as usize; chunks.swap(i, j); }
     let secs: u64 = std::env::var("SV_BUDGET_S").ok().and_then(|x| x.parse().ok()).unwrap_or(if thorough { 840 } else { 60 });
-    let t0 = std::time::Instant::now();
-    'outer: for ch in chunks {
-        for c in ch {
-            if t0.elapsed().as_secs() >= secs { break 'outer; }
-            let (cs, obs) = rt.block_on(runner.run_case(c));
-            out.case(&cs, &obs); out.flush();
-        }
+    // Databases opened in one process leave file descriptors behind: run the cases in child processes of at most
+    // 40 chunks (960 cases) each; a child stops at the deadline
+    let deadline = now_secs() + secs;
+    let exe = std::env::current_exe().unwrap();
+    let tmp = tempfile::Builder::new().prefix("sv-c19b-").tempdir().unwrap();
+    drop(runner); drop(out);
+    for (bi, batch) in chunks.chunks(40).enumerate() {
+        if now_secs() >= deadline { break; }
+        let f = tmp.path().join(format!("b{bi}.cases"));
+        let text: String = batch.iter().flatten().map(|c| c.show() + "\n").collect();
+        std::fs::write(&f, text).unwrap();
+        let st = std::process::Command::new(&exe).args([&a.prop, "cases", &a.seed.to_string()]).arg(&f)
+            .env("SV_DEADLINE", deadline.to_string()).status().unwrap();
+        if !st.success() { eprintln!("c19: child process failed: {st}"); std::process::exit(st.code().unwrap_or(1)); }
     }
-    rt.block_on(runner.finish());
 }
+
+fn now_secs() -> u64 { std::time::SystemTime::now().duration_since(std::time::UNIX_EPOCH).unwrap().as_secs() }
